@@ -20,7 +20,7 @@ use crate::config::RegExpConfig;
 use crate::dfa::Dfa;
 use crate::expression::Expression;
 use itertools::Itertools;
-use regex::Regex;
+use regex::{Regex, RegexBuilder};
 use std::cmp::Ordering;
 use std::fmt::{Display, Formatter, Result};
 
@@ -96,13 +96,26 @@ impl<'a> RegExp<'a> {
             .iter()
             .map(|it| {
                 let lower_test_case = it.to_lowercase();
-                if lower_test_case.chars().count() == it.chars().count() {
+                if lower_test_case.chars().count() == it.chars().count()
+                    && Self::is_equal_ignoring_case(&lower_test_case, it)
+                {
                     lower_test_case
                 } else {
                     it.to_string()
                 }
             })
             .collect_vec();
+    }
+
+    fn is_equal_ignoring_case(lower_test_case: &str, test_case: &str) -> bool {
+        // The standard library may know case mappings of a newer Unicode version
+        // than the regex crate does. Keep the original test case in that case.
+        lower_test_case == test_case
+            || RegexBuilder::new(&format!("^{}$", regex::escape(lower_test_case)))
+                .case_insensitive(true)
+                .build()
+                .map(|regex| regex.is_match(test_case))
+                .unwrap_or(false)
     }
 
     fn convert_expr_to_regex(expr: &Expression, config: &RegExpConfig) -> Regex {
